@@ -281,6 +281,10 @@ class Tr:
         """straight-line validation function → [EStmt]"""
         out = []
         for s in self.body:
+            if (isinstance(s, ast.Assign) and isinstance(s.value, ast.Subscript)
+                    and self.const_eval(s.value.slice) is not None):
+                # `x = d[K]` raises KeyError when K is absent (`d.get(K)` does not): keep the partiality
+                out.append(f".call {q('getitem:' + self.const_eval(s.value.slice))}")
             if self.try_bind(s):
                 continue
             if isinstance(s, ast.If) and not s.orelse:
